@@ -70,7 +70,8 @@ class C05(SessionProp):
         "requests outstanding, after closure): random octets, and every kind of valid message (all 9 kinds, both "
         "directions) with one node corrupted (identifier edits, length edits incl. 0x80/long forms, zero-length "
         "primitives, content edits producing invalid UTF-8, truncation, spliced nesting bombs of depth 5..1500), whole "
-        "or in random chunks, followed by one more delivery after a failure; non-trivial = corrupted or chunked input"
+        "or in random chunks, followed by one more delivery after a failure; plus intact streams of 2-4 responses of arbitrary "
+        "kinds reusing the ids of the client's operations in progress; non-trivial = corrupted or chunked input"
     )
 
     def corpus(self):
@@ -115,15 +116,22 @@ class C05(SessionProp):
                 pre.append([RECV, msgs.pack([1, msgs.g_op(rng, rng.choice([0, 3, 7]), depth=0), []])])
         k = rng.randint(1, 3)
         ms = []
+        # family "well-formed but unexpected": several intact responses (any response kind) reusing the ids
+        # of operations in progress, so that bookkeeping sets are driven through every order of retirement
+        unexpected = role == CLIENT and pre and rng.random() < 0.3
+        if unexpected:
+            k = rng.randint(2, 4)
         for _ in range(k):
-            kind = rng.randrange(9)
+            kind = rng.choice([1, 4, 5, 6, 8]) if unexpected else rng.randrange(9)
             m = msgs.g_msg(rng, kind, depth=rng.choice([0, 1, 2]))
-            if rng.random() < 0.6:
+            if unexpected:
+                m[0] = rng.randint(1, len(pre))
+            elif rng.random() < 0.6:
                 m[0] = rng.choice([1, 1, 2, 3])
             ms.append(m)
         data = b"".join(msgs.pack(m) for m in ms)
         mut = 0
-        rr = rng.random()
+        rr = 0.9 if unexpected and rng.random() < 0.7 else rng.random()
         if rr < 0.7:
             data = corrupt_node(rng, data)
             mut = 1
